@@ -219,3 +219,19 @@ CHECKS["C01"] = dict(
     assumptions=["file-system model as for C06", "MD5 is an uninterpreted function"],
     outside=["multipart and copy uploads (not built yet)", "sidecar metadata store", "HTTP header plumbing in the controllers", "bodies beyond the byte bound"],
 )
+
+CHECKS["C04"] = dict(
+    explanation="(a) every posix entry point that takes a path-like value from a header or query parameter (copy source, prefix, start-after, "
+                "upload id of Abort/UploadPart, version id of Get/Head/Delete) runs on the file-system model with hostile values built from '..', '.', "
+                "empty and ordinary segments, with or without a leading slash; the model resolves paths component by component and logs every inode "
+                "touched; protected inodes (another bucket, its objects and version store, a file beside the gateway root) must never be read, "
+                "created, changed, removed or even resolved. (b) the URL decoder on an arbitrary raw path: a request that is passed on has no dot "
+                "segment in its decoded path (bucket and key come from there).",
+    harnesses=[
+        dict(name="H04a-posix", entry="backend/posix.VfConfinement", reach=["returned"], key_trace=['"param='], **_FS),
+        dict(name="H04b-urldecoder", pkgs=["./s3api"], entry="s3api.VfDecodeURL", redirects="spec/redirects_auth.json", reach=["passed-on", "refused"]),
+    ],
+    assumptions=["file-system model: component-wise resolution, '..' really walks up", "bucket and key reach the backend only through the request path"],
+    outside=["symlinks", "sidecar metadata store", "admin API parameters", "other posix entry points' version-id parameters (retention / legal hold)",
+             "percent-encoding beyond one decoding pass is the URL decoder's real behaviour (net/url is executed from its SSA)"],
+)
